@@ -462,6 +462,12 @@ class DeferredSender (threading.Thread):
     while core.running:
 
       with self._lock:
+        # A connection closed with data still queued must not reach select()
+        # (which refuses its descriptor): drop what is left for it
+        for con in [c for c in self._dataForConnection if c.disconnected]:
+          del self._dataForConnection[con]
+        if len(self._dataForConnection) == 0:
+          self.sending = False
         cons = list(self._dataForConnection.keys())
 
       rlist, wlist, elist = select.select([self._waker], cons, cons, 5)
